@@ -26,7 +26,7 @@ NOT_NUMBERS = ["3.", "5 ", " 5", "30.", "1e1", "0x1F", "18446744073709551646", "
 
 
 def act(a, **kw):
-    d = dict(a=a, seq=0, sq="ok", integ="none", hb=0, enc="0", cred=True, id=[], b=0, e=0, ms=0, mid="", midSeq=0, omit="")
+    d = dict(a=a, seq=0, sq="ok", integ="none", hb=0, enc="0", cred=True, id=[], b=0, e=0, ms=0, mid="", midSeq=0, omit="", pipe=False)
     # ("extra", "empty", "numTxt" are filled in by run_driver unless a generator sets them)
     d.update(kw)
     return d
@@ -34,7 +34,8 @@ def act(a, **kw):
 
 def cfg(role, hbmin=1, hbmax=60, hbcfg=30, closems=1000, startseq=0, buf=10, savefailfrom=0, creds="", savefailonly=0, ctrfailonly=0):
     return dict(role=role, hbMin=hbmin, hbMax=hbmax, hbCfg=hbcfg, encCfg="0", allowed=["0"],
-                closeMs=closems, startSeq=startseq, buf=buf, saveFailFrom=savefailfrom, creds=creds, saveFailOnly=savefailonly, ctrFailOnly=ctrfailonly)
+                closeMs=closems, startSeq=startseq, buf=buf, saveFailFrom=savefailfrom, creds=creds, saveFailOnly=savefailonly, ctrFailOnly=ctrfailonly,
+                imposeHb=0)
 
 
 class Peer:
@@ -266,6 +267,25 @@ def gen_config():
                 p = Peer()
                 st = logged_on_prefix(role, 30, p) + [act("advance", ms=10), act(call), act("advance", ms=closems - 1), act("advance", ms=5), act("advance", ms=500)]
                 out.append(dict(id="cfg-%s-unsaved-%s-%d" % (call, role[0], closems), cfg=cfg(role, closems=closems, savefailonly=2), steps=st))
+    # the application's logon callback imposes a heartbeat interval of its own (it rewrites the settings it is handed): the Logon
+    # answer announces it and BOTH timers run on it - a peer that is live by that interval is not probed, a silent one is
+    for ask, impose in ((1, 3), (4, 1)):
+        T = impose * 1000
+        tin = (impose + max(1, impose // 20)) * 1000
+        p = Peer()
+        st = [act("run"), p("logon", hb=ask)]
+        # (the application itself sends several times per interval, so that no heartbeat is due and the inbound side is seen alone)
+        for _ in range(4):
+            for _ in range(3):
+                st += [act("advance", ms=T // 4), act("send")]
+            st += [act("advance", ms=T // 20), p("hbt")]
+        for _ in range(2):
+            for k in range(5):
+                st += [act("advance", ms=T // 4), act("send")]
+            st += [act("advance", ms=tin + tin // 10 + 1 - 5 * (T // 4))]
+        c = cfg("acceptor", hbmin=1, hbmax=60)
+        c["imposeHb"] = impose
+        out.append(dict(id="cfg-impose-%d-%d" % (ask, impose), cfg=c, steps=st))
     # the application's state-change callbacks consume their events (return false): Stop still ends on the peer's answer, also in
     # the second lifetime of the session object
     for role in ("acceptor", "initiator"):
@@ -795,6 +815,8 @@ def check(prop, tier, seed):
     if prop in ("C06", "C07", "C08", "C09", "C14"):
         import stack_checks
         rejects += stack_checks.check(run, quick, seed)
+        if prop == "C14":
+            rejects += stack_checks.shared_check(run, quick)
         run.assumptions_extra = [stack_checks.ASSUMPTION]
     # C09 ends with "... stops its handler, and the connection is closed": the silent-peer disconnect on a real Acceptor / Initiator
     # with a scripted connection (harness/wirerig, real time, HeartBtInt 1): serving call returned, socket closed, notification
